@@ -51,7 +51,26 @@ func flagEstablished(fn *ssa.Function, site ssa.Instruction, field string, want 
 			return true
 		}
 	}
-	return false
+	// or the flag is given the wanted value later in the same call, on every path
+	// from the site to a return (the store mutex is held throughout the method, so
+	// the order of the two updates inside the critical section is immaterial)
+	n, bad := 0, 0
+	forEachPath(fn, 20000, func(p Path) {
+		if !p.hasInstr(site) || p.ret() == nil {
+			return
+		}
+		n++
+		var last *ssa.Store
+		for _, st := range storesToField(fn, field) {
+			if instrAfterOnPath(p, site, st) && (last == nil || instrAfterOnPath(p, last, st)) {
+				last = st
+			}
+		}
+		if last == nil || !isBoolConst(last.Val, want) {
+			bad++
+		}
+	})
+	return n > 0 && bad == 0
 }
 
 func checkLRUStore(c *Ctx, r *Report, pkg string, disk bool) {
@@ -147,12 +166,13 @@ func checkLRUStore(c *Ctx, r *Report, pkg string, disk bool) {
 			if !mentionsField(b.X, fSize) {
 				amount = b.X
 			}
+			amount = unparam(amount)
 			capOK := guardedBy(st, func(cond ssa.Value, val bool) int {
 				cb, ok := cond.(*ssa.BinOp)
 				if !ok || !mentionsField(cond, fCap) || !mentionsField(cond, fSize) {
 					return 0
 				}
-				if !mentions(cond, func(v ssa.Value) bool { return v == amount }, 5) {
+				if !mentions(cond, func(v ssa.Value) bool { return unparam(v) == amount }, 5) {
 					return 0
 				}
 				over := false
@@ -169,7 +189,7 @@ func checkLRUStore(c *Ctx, r *Report, pkg string, disk bool) {
 			if !capOK {
 				for _, cs := range callsIn(fn) {
 					g := c.Func(cs.Callee)
-					if g == nil || pkgOf(g) != pkg || len(cs.Instr.Common().Args) < 2 || cs.Instr.Common().Args[1] != amount {
+					if g == nil || pkgOf(g) != pkg || len(cs.Instr.Common().Args) < 2 || unparam(cs.Instr.Common().Args[1]) != amount {
 						continue
 					}
 					if inSuccessRegion(cs.Instr, st) && ensuresSpace(g, fSize, fCap) {
@@ -180,15 +200,45 @@ func checkLRUStore(c *Ctx, r *Report, pkg string, disk bool) {
 			r.Check(capOK, r2, fn, "size += x", st, "after capacity test / successful ensureFreeSpace", "space is reserved without the capacity test for the same amount: admission can exceed capacity")
 			// release on error exits
 			n, bad := 0, 0
+			nsucc, badsucc := 0, 0
 			forEachPath(fn, 20000, func(p Path) {
 				ret := p.ret()
-				if ret == nil || !p.hasInstr(st) || classifyReturn(ret) != RetFailure || !precedes(st, ret) {
+				if ret == nil || !p.hasInstr(st) || !precedes(st, ret) {
+					return
+				}
+				if classifyReturn(ret) == RetSuccess {
+					// the reservation must survive a successful return
+					nsucc++
+					for _, cs := range callsInNamed(fn, "(*"+tStore+").releaseSpace") {
+						if _, isDefer := cs.Instr.(*ssa.Defer); !isDefer && p.hasInstr(cs.Instr) && unparam(cs.Instr.Common().Args[1]) == amount {
+							badsucc++
+							return
+						}
+					}
+					for _, dc := range deferredCallsOnPath(fn, p, "(*"+tStore+").releaseSpace") {
+						if len(dc.Args) >= 2 && unparam(dc.Args[1]) == amount {
+							badsucc++
+							return
+						}
+					}
+					return
+				}
+				if classifyReturn(ret) != RetFailure {
 					return
 				}
 				n++
 				hit := false
 				for _, cs := range callsInNamed(fn, "(*"+tStore+").releaseSpace") {
-					if p.hasInstr(cs.Instr) && cs.Instr.Common().Args[1] == amount {
+					if _, isDefer := cs.Instr.(*ssa.Defer); isDefer {
+						continue
+					}
+					if p.hasInstr(cs.Instr) && unparam(cs.Instr.Common().Args[1]) == amount {
+						hit = true
+					}
+				}
+				// or by a deferred rollback whose guard flag has the releasing value on this path
+				for _, dc := range deferredCallsOnPath(fn, p, "(*"+tStore+").releaseSpace") {
+					if len(dc.Args) >= 2 && unparam(dc.Args[1]) == amount {
 						hit = true
 					}
 				}
@@ -198,6 +248,9 @@ func checkLRUStore(c *Ctx, r *Report, pkg string, disk bool) {
 			})
 			if n > 0 {
 				r.Check(bad == 0, r2, fn, "release on error after reservation", st, fmt.Sprintf("%d error paths release", n), fmt.Sprintf("%d of %d error exits after the reservation do not release it: reserved space leaks", bad, n))
+			}
+			if nsucc > 0 {
+				r.Check(badsucc == 0, r2, fn, "reservation kept on success", st, fmt.Sprintf("%d success paths keep the reservation", nsucc), fmt.Sprintf("%d of %d successful exits give the reservation back although the blob was created: the store under-counts its size and admits more than its capacity", badsucc, nsucc))
 			}
 		}
 		// deletes
@@ -294,13 +347,14 @@ func checkLRUStore(c *Ctx, r *Report, pkg string, disk bool) {
 				n++
 				removed := false
 				for _, cs := range callsInNamed(fn, "(*container/list.List).Remove") {
-					if p.hasInstr(cs.Instr) && precedes(st, cs.Instr) {
+					// before or after the flag store: both happen inside one critical section
+					if p.hasInstr(cs.Instr) && mentionsField(cs.Instr.Common().Args[0], fQueue) {
 						removed = true
 					}
 				}
 				incomplete := false
 				instrsOf(fn, func(in ssa.Instruction) {
-					if iff, ok := in.(*ssa.If); ok && isFieldLoad(iff.Cond, fComplete) && precedes(st, iff) {
+					if iff, ok := in.(*ssa.If); ok && isFieldLoad(iff.Cond, fComplete) {
 						if p.hasEdge(Edge{iff.Block(), iff.Block().Succs[1]}) {
 							incomplete = true
 						}
